@@ -328,6 +328,34 @@ func prefixParts(c *harness.Check) {
 		}
 	})
 	finishPart(c, "prefixes/ordered-sequences", total, complete, map[string]any{"max_length": L, "index_space": tot, "order": "every ordered sequence with repetition"})
+
+	// large sets: the text forms exceed the writer's 128 KiB buffer once or several times, so every way the
+	// writer spills a line is taken; same representations, probes inside and just outside the generated ranges
+	gen4 := func(n int) (l []string) {
+		for i := 0; i < n; i++ {
+			l = append(l, fmt.Sprintf("10.%d.%d.0/24", i>>8&0xff, i&0xff))
+		}
+		return
+	}
+	gen6 := func(n int) (l []string) {
+		for i := 0; i < n; i++ {
+			l = append(l, fmt.Sprintf("2001:db8:%x:%x::/64", i>>8&0xffff, i&0xff))
+		}
+		return
+	}
+	large := [][]string{gen4(9300), gen4(9500), gen4(20000), gen6(5900), gen6(6500), append(gen4(12000), gen6(2000)...)}
+	largeProbes := append(append([]netip.Addr{}, probes...),
+		netip.MustParseAddr("10.0.0.1"), netip.MustParseAddr("10.36.83.200"), netip.MustParseAddr("10.36.84.1"), netip.MustParseAddr("10.78.32.1"), netip.MustParseAddr("10.255.255.255"),
+		netip.MustParseAddr("2001:db8:0:0::1"), netip.MustParseAddr("2001:db8:17:b::1"), netip.MustParseAddr("2001:db8:19:63::1"), netip.MustParseAddr("2001:db8:19:64::1"), netip.MustParseAddr("2001:db9::1"))
+	total, complete = parallel(int64(len(large)), 1, mkdir, func(dir string, t *tally, i int64) {
+		list := large[i]
+		fails, nontrivial := checkPrefixes(t, list, largeProbes, dir, false)
+		c.Distinct(fmt.Sprintf("pfx-large|%d|%s", len(list), list[len(list)-1]), nontrivial)
+		for _, f := range fails {
+			report(32<<48|i, f.sig(), fmt.Sprintf("set of %d generated prefixes (%s .. %s): %s", len(list), list[0], list[len(list)-1], f.what(list[:2])), map[string]any{"part": "prefix", "vocab": vocab, "prefixes": list, "first_failure": f})
+		}
+	})
+	finishPart(c, "prefixes/large-sets", total, complete, map[string]any{"sizes": []int{9300, 9500, 20000, 5900, 6500, 14000}, "why": "text forms of 130 KiB to 280 KiB cross the writer's 128 KiB buffer"})
 }
 
 func replayPrefix(r map[string]any) []string {
